@@ -27,6 +27,9 @@ CLAIMS = {
     "C06": ("spec/CMakeLex.tla, CMakeGen.tla (InjectFault), MC_C05.tla",
             "TLC builds valid files from the reference productions, injects one fault string at every position and predicts with the lexer/parser model whether the fault is noticed; every faulted file goes through the real cminx.main as a single input and inside a directory: where the reference rejects the file (cmake -P parse error, or backslash before an alphanumeric per the manual) an error, non-zero status and no .rst are demanded, and a page must never be written when the real lexer skipped characters.",
             "faults inside comments / bracket arguments and backslash-newline not judged; single faults (pairs via -simulate not yet); known finding K3", "4 C06"),
+    "C07": ("spec/EntryRender.tla, RstWriter.tla, MC_C07.tla; docutils 0.23 with stub directives",
+            "TLC renders every page of the menu (entry kinds x doc shapes, pairs, classes with members and inner classes) through the transcription of documentation_types.py on the writer model and checks C07_TitleModuleEntries, C07_ContentInsideOwnDirective, C07_EntriesDisjoint, IndentExact, OptionsFirst; each page is produced for real from CMake source, compared character for character with the specification's lines, and parsed by docutils: no error-level message, title/module/entries as siblings, doc text and members nested in their own entry only; the repository's sample pages are parsed the same way.",
+            "doc bodies from a menu of valid reST shapes; docutils with stub directives stands for Sphinx", "4 C07"),
     "C08": ("spec/AggOps.tla, Aggregator.tla, MC_C08a/b.tla, TraceAggregator.tla",
             "TLC checks C08_DocStemming / C08_OffRemoves on the design (Dev={}) for every flag combination of the kinds that occur; behaviours from the model of the code as it is (Dev=CurrentDev) are replayed under their flags and under defaults and the doccomment-stemming entries compared; known finding K1 is reported as KNOWN-FINDING only for cases matching its signature and the Impl prediction.",
             "flag lattice covered per configuration (16 + 64 combinations) and by random flags in binding B, not all 1024 per program", "4 C08"),
